@@ -180,6 +180,12 @@ def _any_int(ctx, args, kwargs):
     return SInt(t)
 
 
+def _any_values(ctx, args, kwargs):
+    import z3
+    from .seqs import SVSeq, VSEQ
+    return SVSeq(z3.Const(ctx.fresh_name("env.%s" % (args[0] if args else "v")), VSEQ))
+
+
 def _ghost_set(ctx, args, kwargs):
     ctx.ghost[args[0]] = args[1]
     return True
@@ -190,7 +196,8 @@ def _seq_uncons(ctx, args, kwargs):
     s = args[0]
     if not isinstance(s, SSeq):
         return S.seq_uncons(s)
-    ctx.prove("%s/ghost-nonempty" % ctx.proof_label, z3.Length(s.term) > 0)
+    if not getattr(ctx, "_uncons_quiet", False):
+        ctx.prove("%s/ghost-nonempty" % ctx.proof_label, z3.Length(s.term) > 0)
     x = ctx.fresh_ref("head")
     rest = SSeq(z3.Const(ctx.fresh_name("tail"), RSEQ), s.elem, ("var",))
     ctx.assume_raw(s.term == z3.Concat(z3.Unit(x), rest.term))
@@ -261,6 +268,7 @@ ModelsMixin.FUNCTION_MODELS.update({
     "pyvc.spec.unbe": _unbe,
     "pyvc.spec.zeros": _zeros,
     "pyvc.spec.lib_error": _lib_error,
+    "pyvc.spec.any_values": _any_values,
     "pyvc.spec.raised_in": _raised_in,
     "pyvc.spec.same": _same,
     "pyvc.spec.is_instance_of": _is_instance_of,
